@@ -8,8 +8,9 @@ reference.  Here objects live in a **heap** and are designated by **ids**; a fie
 another object holds its id.  `cloneSim` is the transcription of `Simulation.clone`,
 `Population.clone`, `GroupPopulation.clone`, `Holder.clone` (repaired code, `notes/fixes.py`
 entries C13 and C13c) as an *allocation pattern*: which fields are freshly allocated, which are
-copied by reference.  The operations (`set_input`, `delete_arrays`, `calculate`,
-`calculate_add`, `trace = …`, `get_holder`) read and write **through ids**, navigating exactly
+copied by reference.  The operations (`set_input` — with `set_input_dispatch_by_period` for the variables
+that declare it —, `delete_arrays`, `calculate`, `calculate_add`, `trace = …`, `get_holder`,
+`invalidate_cache_entry`) read and write **through ids**, navigating exactly
 the references the Python code navigates (`holder.population.count`,
 `holder.simulation.memory_config`, `population.simulation.calculate`, `group.members`,
 `population.simulation.populations[…]`, …).
@@ -59,6 +60,7 @@ inductive Via where
   | hasRole (g : Nat) (role : List Nat)   -- `person.has_role(ROLE)`, `ROLE` a role of group entity `g` (no dependency)
   | param                             -- `parameters(period).p0` in a three-argument formula (no dependency)
   | nth (k : Nat)                     -- `group.value_nth_person(k, group.members(dep, period), default=0)`
+  | enumIs (k : Nat)                  -- `population(dep, period) == ENUM.<member k>`: an `EnumArray` compared with a member
 deriving DecidableEq, Repr
 
 /-- the value of the one parameter of the generated systems (parameters are C06/C07's subject) -/
@@ -87,6 +89,8 @@ structure VarDecl where
   dflt : Int
   formula : Option (Int × List Term)    -- constant + Σ coef · term
   blacklisted : Bool := false           -- listed in `tax_benefit_system.cache_blacklist`
+  isEnum : Bool := false                -- `value_type = Enum`: its vectors are `EnumArray`s (member indices)
+  dispatch : Bool := false              -- `set_input = set_input_dispatch_by_period`
 deriving Repr
 
 abbrev Sys := List VarDecl
@@ -501,11 +505,42 @@ def holderDefault (sys : Sys) (ho : HolderObj) : HM Vec := do
 
 /-! ## simulation operations -/
 
-/-- `Simulation.set_input` → `Holder.set_input` -/
+/-- one turn of the loop of `set_input_dispatch_by_period`: a sub-period that has no value yet
+(`holder.get_array(sub_period) is None`, so neither in memory nor on disk) takes the array -/
+def dispatchOne (sys : Sys) (ho : HolderObj) (a : Vec) (sub : Period) : HM Unit := do
+  let found ← holderFind ho sub
+  match found with
+  | some _ => pure ()
+  | none => holderSet sys ho sub a
+
+/-- the loop: from the start of the period, one definition period after the other while it starts before `after` -/
+def dispatchLoop (sys : Sys) (ho : HolderObj) (a : Vec) (after : Date) : Nat → Period → HM Unit
+  | 0, _ => fail .fuel
+  | n + 1, sub =>
+    if sub.start.lt after then do
+      dispatchOne sys ho a sub
+      let nxt ← ofPeriod (sub.offset (.n 1) none)
+      dispatchLoop sys ho a after n nxt
+    else pure ()
+
+/-- `set_input_dispatch_by_period(holder, period, array)`: `_to_array` (the length is checked against the
+population) — refused for an eternal variable — `after_instant = period.start.offset(size, unit)` — the loop -/
+def dispatchInput (sys : Sys) (ho : HolderObj) (decl : VarDecl) (p : Period) (a : Vec) : HM Unit := do
+  let po ← rdPop ho.pop
+  if a.length ≠ po.count then fail .value else
+  if isEternal decl then fail .value else do
+  let after ← ofPeriod (instOffset p.start (.n p.size) p.unit)
+  match after with
+  | none => fail .value
+  | some af => dispatchLoop sys ho a af 800 ⟨decl.defPeriod, p.start, 1⟩
+
+/-- `Simulation.set_input` → `Holder.set_input`: a variable with a `set_input` rule hands the period and the
+array to it, the others store under the period itself -/
 def setInput (sys : Sys) (x : Id) (v : Var) (p : Period) (a : Vec) : HM Unit := do
   let decl ← varDecl sys v
   let (_, ho) ← getHolder sys x v
   if p.unit = .eternity ∧ !isEternal decl then fail .value else
+  if decl.dispatch then dispatchInput sys ho decl p a else
   holderSet sys ho p a
 
 /-- `set_input` with values that `astype(variable.dtype)` refuses: the holder is made, the period is
@@ -520,6 +555,13 @@ def setInputBad (sys : Sys) (x : Id) (v : Var) (p : Period) : HM Unit := do
 def deleteArrays (sys : Sys) (x : Id) (v : Var) (p : Option Period) : HM Unit := do
   let (_, ho) ← getHolder sys x v
   holderDelete ho p
+
+/-- `simulation.invalidate_cache_entry(variable, period)`: `self.invalidated_caches.add(Cache(variable, period))` —
+nothing is checked (the entry is met by the next purge) -/
+def invalidateEntry (x : Id) (v : Var) (p : Period) : HM Unit := do
+  let so ← rdSim x
+  let inv ← rdInval so.inval
+  wrLeaf so.inval (.inval (insertNew inv (v, p)))
 
 /-- `simulation.trace = b`: the setter installs a *new* tracer -/
 def setTrace (x : Id) (b : Bool) : HM Unit := do
@@ -656,6 +698,12 @@ def evalTerm (sys : Sys) (rec : Id → Var → Period → HM Vec) (pid : Id) (en
     -- `population(dep, p')`: `check_variable_defined_for_entity`, then `self.simulation.calculate`
     if ddecl.entity ≠ ent then fail .value else
     rec po.sim t.dep p'
+  | .enumIs k =>
+    -- `population(dep, p') == ENUM.<member k>`: what `calculate` returns for an Enum variable — computed, cached,
+    -- or copied into a clone with the store — is an `EnumArray`, which compares with a member by index
+    if ddecl.entity ≠ ent then fail .value else do
+    let a ← rec po.sim t.dep p'
+    pure (a.map (fun x => if x = (k : Int) then 1 else 0))
   | .members => do
     -- `population.sum(population.members(dep, p'))`
     let mid ← ofOption .value po.members
@@ -734,11 +782,12 @@ def computeAndStore (sys : Sys) (rec : Id → Var → Period → HM Vec) (x : Id
   putInCache sys ho p a
   pure a
 
-/-- repair C02a: a hit on an entry awaiting deletion taints the calculations in progress -/
-def taintOnHit (x : Id) (v : Var) (p : Period) : HM Unit := do
+/-- repair C02a / C02c: a hit on an entry awaiting deletion taints the calculations in progress; an eternal
+variable has one stored value, whatever the period it was marked or is read under -/
+def taintOnHit (x : Id) (v : Var) (p : Period) (eternal : Bool) : HM Unit := do
   let so ← rdSim x
   let inv ← rdInval so.inval
-  if (v, p) ∈ inv then do
+  if inv.any (fun k => decide (k.1 = v) && (decide (k.2 = p) || eternal)) then do
     let tr ← rdTracer so.tracer
     wrLeaf so.inval (.inval (addAll inv tr.stack))
   else pure ()
@@ -752,7 +801,7 @@ def calcInner (sys : Sys) (rec : Id → Var → Period → HM Vec) (x : Id) (v :
   if !periodConsistent decl p then fail .value else do
   match ← holderFind ho p with
   | some a => do
-    taintOnHit x v p
+    taintOnHit x v p (isEternal decl)
     pure a
   | none =>
     catchSpiral (computeAndStore sys rec x v p decl pid ho) (holderDefault sys ho)
@@ -835,6 +884,7 @@ inductive Op where
   | setBad (v : Var) (p : Period)   -- `set_input` with an array of the right length whose dtype cannot be cast
   | calcVia (r : Route) (ent : Nat) (v : Var) (p : Period)   -- `<route>(v, period)`
   | readVia (r : Route) (ent : Nat) (v : Var) (p : Period)   -- `<route>.get_holder(v).get_array(period)`
+  | invalidate (v : Var) (p : Period)   -- `simulation.invalidate_cache_entry(v, period)`
 deriving Repr
 
 /-- what a call returns -/
@@ -862,6 +912,7 @@ def step (sys : Sys) (fuel : Nat) (x : Id) : Op → HM Out
     match ← readThrough sys x r ent v p with
     | some a => pure (.vec a)
     | none => pure .nothing
+  | .invalidate v p => do invalidateEntry x v p; pure .done
 
 /-! ## observations of one simulation -/
 
